@@ -14,7 +14,7 @@ EXTENDS Naturals, Sequences, Json, TLC
 Trace == ndJsonDeserialize("trace.ndjson")
 VARIABLE l
 Init == l = 1
-HistoryEvents == {"begin", "el", "vote", "verify", "newvoter", "accept", "nonvoted", "other", "end", "idle", "txbegin", "txend"}
+HistoryEvents == {"begin", "el", "vote", "verify", "newvoter", "accept", "nonvoted", "other", "end", "idle", "txbegin", "txend", "probe"}
 Ev == Trace[l]
 Next == /\ l <= Len(Trace)
         /\ \/ Ev.ev \in {"init", "unbuildable"} \cup HistoryEvents
